@@ -76,7 +76,21 @@ thread_local! {
 /// is `e` the very error the source injected last?
 pub fn is_last_fault(e: &io::Error) -> bool {
     let want = LAST_FAULT.with(|c| c.get());
-    e.get_ref().and_then(|r| r.downcast_ref::<FaultToken>()).map_or(false, |t| t.0 == want && want != 0)
+    // the error itself, or (if a layer added context) any error in its source() chain
+    let mut cur: Option<&(dyn std::error::Error + 'static)> = e.get_ref().map(|r| r as &(dyn std::error::Error + 'static));
+    while let Some(c) = cur {
+        if let Some(t) = c.downcast_ref::<FaultToken>() {
+            return t.0 == want && want != 0;
+        }
+        if let Some(inner) = c.downcast_ref::<io::Error>() {
+            if let Some(r) = inner.get_ref() {
+                cur = Some(r as &(dyn std::error::Error + 'static));
+                continue;
+            }
+        }
+        cur = c.source();
+    }
+    false
 }
 
 /// terminal error kinds a source or sink may fail with (anything but Interrupted)
